@@ -4,6 +4,8 @@ use vstd::prelude::*;
 use std::ops::Range;
 use std::ops::{Deref, DerefMut};
 use std::cmp::Ordering;
+use std::collections::HashMap;
+use std::fmt::Debug;
 verus! {
 //@include shims.rs
 //@include types_error.rs
@@ -18,46 +20,13 @@ pub fn string_clone(s: &String) -> (r: String)
 pub assume_specification<Idx: Clone> [<Range<Idx> as Clone>::clone] (r: &Range<Idx>) -> (c: Range<Idx>)
     ensures cloned(r.start, c.start), cloned(r.end, c.end);
 
-// ---------- types of the symbol table that the rules talk about
-//@extract spl_frontend/src/table.rs :: enum DataType
-//@ rewrite drop_derive
-//@end
+// ---------- the symbol table (shared with unit `decls`): entry types verbatim, HashMap tables opaque, scoping = local before global
+//@include inc_symtab.rs
 //~assume derived PartialEq for DataType is structural equality (R1; name equivalence of arrays = equal `creator`)
 impl PartialEq for DataType {
     #[verifier::external_body]
     fn eq(&self, other: &Self) -> (r: bool)
         ensures r == (*self == *other),
-    { unimplemented!() }
-}
-// R7 stand-ins: LookupTable / LocalTable are HashMap based; the functions under contract only look names up
-pub struct LookupTable<'a> { pub opaque: &'a u8 }
-pub struct LocalTable { pub opaque: u8 }
-//@extract spl_frontend/src/table.rs :: struct TypeEntry
-//@ rewrite drop_derive
-//@end
-//@extract spl_frontend/src/table.rs :: struct ProcedureEntry
-//@ rewrite drop_derive
-//@end
-//@extract spl_frontend/src/table.rs :: struct VariableEntry
-//@ rewrite drop_derive
-//@end
-//@extract spl_frontend/src/table.rs :: enum Entry
-//@ rewrite drop_derive
-//@end
-/// what the symbol table answers for a name (local scope before global scope): abstract, the table is a HashMap
-pub uninterp spec fn lookup_spec<'a>(table: LookupTable<'a>, key: Seq<char>) -> Option<Entry<'a>>;
-//~assume LookupTable::lookup (HashMap, closures) is abstract: it returns `lookup_spec(table, key)`; which entries the table holds (scoping, declaration rules of table/build.rs) is not decided
-//@extract spl_frontend/src/table.rs :: impl<'a> LookupTable<'a> :: fn lookup
-//@ ret r
-//@ sig
-        ensures r == lookup_spec(*self, key@),
-//@ assume_body fn lookup
-//@end
-//~assume derived Clone for DataType is structural (R1)
-impl Clone for DataType {
-    #[verifier::external_body]
-    fn clone(&self) -> (r: Self)
-        ensures r == *self,
     { unimplemented!() }
 }
 
